@@ -169,7 +169,28 @@ pub fn fold(cu: u32) -> u32 {
     }
 }
 
+/// \return whether `cu` is a code point whose full (SpecialCasing) uppercase mapping has more
+/// than one code point even though it has a simple uppercase mapping: the Greek letters with
+/// ypogegrammeni. Canonicalize leaves such code points unchanged.
+fn has_multi_char_uppercase(cu: u32) -> bool {
+    matches!(
+        cu,
+        0x1F80..=0x1F87 | 0x1F90..=0x1F97 | 0x1FA0..=0x1FA7 | 0x1FB3 | 0x1FC3 | 0x1FF3
+    )
+}
+
+/// Implements the non-Unicode branch of `Canonicalize`: toUppercase, except that a code point
+/// is left alone if its uppercase form is not a single code point, or if the code point is
+/// non-ASCII and its uppercase form is ASCII.
 fn uppercase(cu: u32) -> u32 {
+    if has_multi_char_uppercase(cu) {
+        return cu;
+    }
+    let up = simple_uppercase(cu);
+    if cu >= 128 && up < 128 { cu } else { up }
+}
+
+fn simple_uppercase(cu: u32) -> u32 {
     let searched = TO_UPPERCASE.binary_search_by(|fr| {
         if fr.first() > cu {
             Ordering::Greater
@@ -311,8 +332,7 @@ pub(crate) fn unfold_uppercase_char(c: u32) -> Vec<u32> {
             continue;
         }
         for cp in tr.transformed_from().codepoints() {
-            let tcp = tr.apply(cp);
-            if tcp == fcp {
+            if uppercase(cp) == fcp {
                 res.push(cp);
             }
         }
@@ -347,6 +367,33 @@ pub fn add_icase_code_points(mut input: CodePointSet) -> CodePointSet {
         unfold_interval(*iv, &mut input);
     }
     input
+}
+
+/// Like `add_icase_code_points`, for the given mode: with `unicode` false the canonical form is
+/// the legacy uppercase one rather than the simple case folding.
+pub fn add_icase_code_points_for_mode(input: CodePointSet, unicode: bool) -> CodePointSet {
+    if unicode {
+        return add_icase_code_points(input);
+    }
+    // Canonical forms of all members.
+    let mut canon = input.clone();
+    for tr in TO_UPPERCASE.iter() {
+        for cp in tr.transformed_from().codepoints() {
+            if input.contains(cp) {
+                canon.add_one(uppercase(cp));
+            }
+        }
+    }
+    // Everything whose canonical form is one of those.
+    let mut result = canon.clone();
+    for tr in TO_UPPERCASE.iter() {
+        for cp in tr.transformed_from().codepoints() {
+            if canon.contains(uppercase(cp)) {
+                result.add_one(cp);
+            }
+        }
+    }
+    result
 }
 
 pub(crate) enum PropertyEscapeKind {
